@@ -473,6 +473,7 @@ var malformedKinds = []string{
 	"unknown-ptype", "empty-ptype", "bad-at-start", "bad-at-end", "empty-url", "no-filter", "bad-url", "dup-flow-name",
 	"bad-condition", "res-only-condition-on-req", "empty-flow-name", "stream-to-flow", "flow-to-stream", "no-root",
 	"unconnected", "two-flows-one-bad", "proc-to-stream-start", "unused-proc",
+	"null-conn-req", "null-conn-res", "null-conn-first", "only-null-conns", "null-proc", "null-conn-second-flow",
 }
 
 func malformedCase(r *prng.R, id, kind string) proto.Case {
@@ -549,6 +550,19 @@ func malformedCase(r *prng.R, id, kind string) proto.Case {
 		add(fmt.Sprintf("conn f1 req %s S:globalStream:start", pe("B", "b")))
 	case "unused-proc":
 		add("proc f1 C PA")
+	case "null-conn-req":
+		add("connnull f1 req")
+	case "null-conn-res":
+		add("connnull f1 res")
+	case "null-conn-first":
+		f = append(append([]string{}, f[:3]...), append([]string{"connnull f1 req"}, f[3:]...)...)
+	case "only-null-conns":
+		f = append(f[:3], "connnull f1 req", "connnull f1 res")
+	case "null-proc":
+		add("procnull f1 Z")
+	case "null-conn-second-flow":
+		add(baseFlow("f2")...)
+		add("connnull f2 res")
 	}
 	ops = append(ops, f...)
 	ops = append(ops, "load", "txn dir=req o=f1/A/req=n:a,f1/B/req=n:a", "txn dir=res o=f1/B/res=n:b")
@@ -1120,6 +1134,65 @@ func dupQuotaCase(r *prng.R, id string, shape string) proto.Case {
 	return proto.Case{ID: id, Ops: ops}
 }
 
+// ---------------------------------------------------------------- family G: status_code filters and early responses
+
+// statusCase: 1-2 flows on the test URL; some carry filter.status_code (with / without 200, the status of the
+// harness's response transactions); one processor answers the request early; response directions with and without
+// stream entry, continuation of the answering node present or not; the answering flow first or second.
+func statusCase(r *prng.R, id string) proto.Case {
+	ops := append([]string{}, vocabLines...)
+	st := func() string {
+		return prng.Pick(r, []string{"", "", " status=200", " status=429,500", " status=200,429", " status=0", " status=418"})
+	}
+	answering := []string{
+		"flow f1" + st(),
+		"proc f1 G PE act=" + prng.Pick(r, []string{"side", "resp", "none"}),
+		"proc f1 P PA act=" + prng.Pick(r, []string{"side", "resp", "both"}),
+		fmt.Sprintf("conn f1 req %s %s", sStart, pe("G", "")),
+		fmt.Sprintf("conn f1 req %s %s", pe("G", "a"), sEnd),
+	}
+	if r.Chance(60) {
+		answering = append(answering, fmt.Sprintf("conn f1 res %s %s", sStart, pe("P", "")))
+	}
+	if r.Chance(75) {
+		answering = append(answering, fmt.Sprintf("conn f1 res %s %s", pe("G", "e"), pe("P", "")))
+	} else {
+		answering = append(answering, fmt.Sprintf("conn f1 res %s %s", pe("G", "e"), sEnd))
+	}
+	answering = append(answering, fmt.Sprintf("conn f1 res %s %s", pe("P", "a"), sEnd))
+	other := []string{
+		"flow f2" + st(),
+		"proc f2 R PA act=resp",
+		// the request direction of the second flow is undefined: with an early response in the first flow the order
+		// in which Go's map yields the two flows would otherwise be observable in the execution count
+		fmt.Sprintf("conn f2 req %s %s", sStart, sEnd),
+		fmt.Sprintf("conn f2 res %s %s", sStart, pe("R", "")),
+		fmt.Sprintf("conn f2 res %s %s", pe("R", "a"), sEnd),
+	}
+	two := r.Chance(65)
+	if two && r.Bool() {
+		ops = append(ops, other...)
+		ops = append(ops, answering...)
+	} else {
+		ops = append(ops, answering...)
+		if two {
+			ops = append(ops, other...)
+		}
+	}
+	ops = append(ops, "load")
+	all := "f1/G/req=n:a,f1/P/res=n:a,f2/R/res=n:a"
+	// (with two flows no early response / error in a multi-flow oracle would make the flow order observable; the
+	// answering flow is the only one that answers, and a second flow only adds its own executions)
+	ops = append(ops, "txn dir=req o="+all, "txn dir=res o="+all)
+	if !two {
+		ops = append(ops, "txn dir=req o=f1/G/req=e:e,f1/P/res=n:a")
+	} else {
+		ops = append(ops, "txn dir=req o=f1/G/req=e:e,f1/P/res=n:a,f2/R/res=n:a")
+	}
+	ops = append(ops, rawTxn(r, false))
+	return proto.Case{ID: id, Ops: ops}
+}
+
 // ---------------------------------------------------------------- family F: transaction content
 
 var fuzzURLs = []string{"verif.test/x", "verif.test//x", "verif.test/x/", "verif.test/", "verif.test", "", "/", "//", "verif.test/x//y",
@@ -1247,6 +1320,13 @@ func gen(r *prng.R, f proto.Flags, emit func(proto.Case)) {
 	}
 	for i := 0; i < nE; i++ {
 		emit(quotaCase(r.Fork(), next("e")))
+	}
+	nG := 150 * mul
+	if thorough {
+		nG = 1500 * mul
+	}
+	for i := 0; i < nG; i++ {
+		emit(statusCase(r.Fork(), next("g")))
 	}
 	var shapeNames []string
 	for n := range dupShapes {
